@@ -983,8 +983,13 @@ func (r *Runner) ensureStorage() error {
 	if r.Runstackpos < r.runtrackcount*4 {
 		doubleIntSlice(&r.runstack, &r.Runstackpos)
 	}
-	if r.Runtrackpos < r.runtrackcount*4 && !r.growTrack() {
-		return ErrBacktrackingStackLimit
+	// grow until the reserve is available again; growth capped by the limit may add less
+	// than a doubling, and whether the reserve exists must not depend on how large the
+	// stack of this (possibly reused) runner already was
+	for r.Runtrackpos < r.runtrackcount*4 {
+		if !r.growTrack() {
+			return ErrBacktrackingStackLimit
+		}
 	}
 	return nil
 }
